@@ -22,7 +22,7 @@ def build(auto_update=True):
     mu = lsl.param(np.float32(0.2), lsl.Dist(tfd.Normal, loc=0.0, scale=3.0), name="mu")
     ls = lsl.param(np.float32(0.1), lsl.Dist(tfd.Normal, loc=0.0, scale=1.0), name="log_sigma")
     sigma = lsl.Var(lsl.Calc(jnp.exp, ls), name="sigma")
-    pred = lsl.Var(lsl.Calc(lambda m, s: 2.0 * m + s, mu, sigma), name="pred")
+    pred = lsl.Var(lsl.Calc(lambda m, s, centre: jnp.where(centre, 2.0 * m + s, 2.0 * m), mu, sigma, True), name="pred")  # a boolean option: the node value True
     y = lsl.obs(Y, lsl.Dist(tfd.Normal, loc=mu, scale=sigma), name="y")
     m = lsl.GraphBuilder().add(y, pred).build_model()
     m.auto_update = auto_update
@@ -34,7 +34,8 @@ def state_values(st):
 
 
 def same(a, b):
-    return a.keys() == b.keys() and all((a[k] is None and b[k] is None) or (a[k] is not None and b[k] is not None and np.allclose(a[k], b[k], rtol=1e-6, atol=1e-6)) for k in a)
+    return a.keys() == b.keys() and all((a[k] is None and b[k] is None) or (a[k] is not None and b[k] is not None and np.shape(a[k]) == np.shape(b[k])
+                                                                            and np.allclose(a[k], b[k], rtol=1e-6, atol=1e-6)) for k in a)
 
 
 def liesel_case(col, auto_update, rng):
